@@ -465,8 +465,10 @@ impl WriteNode {
             return;
         };
 
+        let version = self.zone.last_published_version();
         let old_rrset = rrsets
-            .get(rtype, self.zone.last_published_version())
+            .get(rtype, version)
+            .or_else(|| self.special_rrset(rtype, version))
             .filter(|rrset| !rrset.is_empty());
         let new_rrset = new_rrset.filter(|rrset| !rrset.is_empty());
 
@@ -507,6 +509,30 @@ impl WriteNode {
             Some(rrset) => diff.add(owner.clone(), rtype, rrset),
             None => diff.clear_added(owner, rtype),
         }
+    }
+
+    /// Returns the RRset of the given type that the node keeps as part of
+    /// a zone cut or as its CNAME rather than among its RRsets.
+    fn special_rrset(
+        &self,
+        rtype: Rtype,
+        version: Version,
+    ) -> Option<SharedRrset> {
+        let Either::Right(ref node) = self.node else {
+            return None;
+        };
+        node.with_special(version, |special| match special {
+            Some(Special::Cut(cut)) if rtype == Rtype::NS => {
+                Some(cut.ns.clone())
+            }
+            Some(Special::Cut(cut)) if rtype == Rtype::DS => cut.ds.clone(),
+            Some(Special::Cname(cname)) if rtype == Rtype::CNAME => {
+                let mut rrset = Rrset::new(Rtype::CNAME, cname.ttl());
+                rrset.push_data(cname.data().clone());
+                Some(SharedRrset::new(rrset))
+            }
+            _ => None,
+        })
     }
 
     fn update_rrset(&self, new_rrset: SharedRrset) -> Result<(), io::Error> {
